@@ -201,8 +201,13 @@ func spell(t *rapid.T, addr string) string {
 
 // hOutput is a provider's response output: the value under the member the feeds read ("last"), sometimes under a
 // member spelled otherwise or under none at all (the output schema of the generated services demands no member).
-func hOutput(t *rapid.T, rates bool) string {
+func hOutput(t *rapid.T, rates, sloppy bool) string {
 	v := hValue(t, rates)
+	if sloppy && rapid.Bool().Draw(t, "sloppy") {
+		// one provider (U1) is sloppy about its documents half of the time: batches that only it answers then carry no
+		// value at all
+		return `{"header":{},"body":{"Last":"3"}}`
+	}
 	switch rapid.IntRange(0, 1<<20).Draw(t, "member") % 8 {
 	case 6:
 		return fmt.Sprintf(`{"header":{},"body":{"Last":"%s"}}`, v)
@@ -397,7 +402,7 @@ func (h *hist) nextTx(t *rapid.T) (txSpec, bool) {
 		if len(reqs) > 0 {
 			r := pick(t, "feedreq", reqs)
 			if pu := userIndex(h.n, r.provider); pu >= 0 {
-				out := hOutput(t, w.rateTemplates > 0)
+				out := hOutput(t, w.rateTemplates > 0, pu == 1)
 				msgs := h.enc(&servicetypes.MsgRespondService{RequestId: r.id, Provider: spell(t, r.provider), Result: hResult, Output: out})
 				if rapid.IntRange(0, 5).Draw(t, "discardanswer") == 3 {
 					// the answer (and the feed value it would append) is executed and then discarded with its transaction;
@@ -919,7 +924,7 @@ func (h *hist) nextTx(t *rapid.T) (txSpec, bool) {
 			if pu < 0 {
 				return txSpec{}, false
 			}
-			out := hOutput(t, false)
+			out := hOutput(t, false, pu == 1)
 			if rid, err := hex.DecodeString(r.id); err == nil {
 				if rq, ok := k.Service.GetRequest(ctx, rid); ok && rq.ServiceName == randomtypes.ServiceName {
 					// the seed service of the random module answers with 32 bytes in hex
